@@ -6,12 +6,13 @@ VERIF = os.path.dirname(os.path.dirname(os.path.abspath(__file__)))
 GO = os.path.join(VERIF, "go")
 
 
-def load_known(prop):
+def load_known(prop, also=()):
     p = os.path.join(VERIF, "known_findings.json")
     if not os.path.exists(p):
         return []
     d = json.load(open(p))
-    return [e for e in d.get("findings", []) if e.get("property") == prop and e.get("status", "open") == "open"]
+    props = [prop] + list(also)
+    return [e for e in d.get("findings", []) if e.get("property") in props and e.get("status", "open") == "open"]
 
 
 def match_known(known, case_line, oracle_line):
@@ -37,7 +38,7 @@ def write_replay(prop, tag, header, cases):
 def decide(prop, cfg, tier, seed, b, rundir, run_driver, read_indexed, sh, ENV):
     res = dict(lines=[], violations=0, known=0, mismatches=0, oracle_viol=0, cases=0, samples=[], stats={},
                distinct_nontrivial=0, proof_ok=False, proof_problems=[])
-    known = load_known(prop)
+    known = load_known(prop, cfg.get('known_from', []))
 
     # ---- proof status
     problems = []
